@@ -143,32 +143,47 @@ fn gen_softmax(g: &mut Gen) {
     g.op("softmax - via=cloned".to_string());
     let max_n = if g.thorough { 5 } else { 4 };
     for n in 1..=max_n {
-        // n distinct values sorted by the order the code sees (signed representative)
-        let mut pool: Vec<Fp> = vec![];
-        while pool.len() < n {
-            let v = Fp::new(g.rng.next() % P);
-            if !pool.contains(&v) {
-                pool.push(v);
+        g.op("@ fp".to_string());
+        // n distinct values sorted by the order the code sees (signed representative); three
+        // pools: random signs, all negative, all non-negative (a maximum computed from a wrong
+        // starting value, e.g. zero, shows only when every input lies on one side of it)
+        for sign in ["mixed", "negative", "nonnegative"] {
+            let mut pool: Vec<Fp> = vec![];
+            while pool.len() < n {
+                let v = Fp::new(g.rng.next() % P);
+                let ok = match sign {
+                    "negative" => v.signed() < 0,
+                    "nonnegative" => v.signed() >= 0,
+                    _ => true,
+                };
+                if ok && !pool.contains(&v) {
+                    pool.push(v);
+                }
             }
-        }
-        pool.sort_by(|a, b| a.partial_cmp(b).unwrap());
-        // all rank patterns (functions positions -> ranks): every ordering, ties included
-        let total = n.pow(n as u32);
-        for code in 0..total {
-            let mut c = code;
-            let mut ranks = vec![];
-            for _ in 0..n {
-                ranks.push(c % n);
-                c /= n;
+            pool.sort_by(|a, b| a.partial_cmp(b).unwrap());
+            // all rank patterns (functions positions -> ranks): every ordering, ties included
+            let total = n.pow(n as u32);
+            for code in 0..total {
+                if sign != "mixed" && n >= 4 && !g.thorough && code % 4 != 0 {
+                    continue;
+                }
+                let mut c = code;
+                let mut ranks = vec![];
+                for _ in 0..n {
+                    ranks.push(c % n);
+                    c /= n;
+                }
+                let v: Vec<String> = ranks.iter().map(|&r| pool[r].0.to_string()).collect();
+                let distinct = { let mut r = ranks.clone(); r.sort(); r.dedup(); r.len() };
+                g.op(format!("softmax {} via={}", v.join(","), LIST_VIAS[code % 4]));
+                g.count(&format!("softmax.length={}", n));
+                g.count(&format!("softmax.signs.{}", sign));
+                g.count(if distinct == n { "softmax.all_distinct" } else { "softmax.with_ties" });
             }
-            let v: Vec<String> = ranks.iter().map(|&r| pool[r].0.to_string()).collect();
-            let distinct = { let mut r = ranks.clone(); r.sort(); r.dedup(); r.len() };
-            g.op(format!("softmax {} via={}", v.join(","), LIST_VIAS[code % 4]));
-            g.count(&format!("softmax.length={}", n));
-            g.count(if distinct == n { "softmax.all_distinct" } else { "softmax.with_ties" });
         }
     }
     // values around the sign boundary of the order and random longer lists
+    g.op("@ fp".to_string());
     let half = P / 2;
     g.op(format!("softmax {},{},{},{} via=cloned", half, half + 1, 0, P - 1));
     for _ in 0..(if g.thorough { 60 } else { 15 }) {
@@ -180,6 +195,7 @@ fn gen_softmax(g: &mut Gen) {
     }
     // f64 sanity oracle on large magnitudes (finite, non-negative, sums to ~1); never compared
     // with the model beyond the list length
+    g.op("@ fp".to_string());
     for v in [
         "1000,1001,999", "-1000,-1001,-999", "1e308,1e308", "-1e308,1e308,0", "710,0,-710", "0,0,0,0",
         "1e-300,2e-300", "745.2,745.1,-745.2", "88.8,-88.8,1e5", "123456789,123456788.5",
@@ -191,7 +207,7 @@ fn gen_softmax(g: &mut Gen) {
 
 pub fn gen(g: &mut Gen) {
     gen_lists(g);
-    let (ms, mf) = if g.thorough { (8, 6) } else { (5, 4) };
+    let (ms, mf) = if g.thorough { (10, 7) } else { (5, 4) };
     for s in 1..=ms {
         for f in 1..=mf {
             gen_cov_case(g, "fp", s, f);
